@@ -244,7 +244,14 @@ fn observe(out: &[u8], id: &str) -> Result<BBox, String> {
     for n in &tree {
         if let xmlref::Node::El(e) = n {
             if let Some(el) = e.find_id(id) {
-                return geom::native_bbox(el).ok_or_else(|| format!("element #{id} has no native geometry: {:?}", el.attrs));
+                let native = geom::native_bbox(el).ok_or_else(|| format!("element #{id} has no native geometry: {:?}", el.attrs))?;
+                // (an element placed by a translation is drawn where that takes it)
+                let shift = el.attr("transform").and_then(|t| t.trim().strip_prefix("translate(")).and_then(|t| t.strip_suffix(')')).map(|t| t.split(|c: char| c == ',' || c.is_whitespace()).filter(|p| !p.is_empty()).filter_map(|p| p.parse::<f64>().ok()).collect::<Vec<_>>());
+                return Ok(match shift.as_deref() {
+                    Some([dx]) => BBox::new(native.x1 + dx, native.y1, native.x2 + dx, native.y2),
+                    Some([dx, dy]) => BBox::new(native.x1 + dx, native.y1 + dy, native.x2 + dx, native.y2 + dy),
+                    _ => native,
+                });
             }
         }
     }
@@ -498,6 +505,13 @@ pub fn run(tier: Tier) -> i32 {
         ("with-content/nested-svg", format!("<svg>{a}<svg id=\"e\" xy=\"#a@br\" wh=\"10 6\"><rect wh=\"3\"/></svg></svg>"), BBox::new(40., 60., 50., 66.)),
         ("with-content/nested-svg-dependant", format!("<svg>{a}<svg id=\"s\" xy=\"#a@br\" wh=\"10 6\"><rect wh=\"3\"/></svg><rect id=\"e\" xy=\"#s|h 2\" wh=\"2\"/></svg>"), BBox::new(52., 62., 54., 64.)),
     ];
+    let mut round4 = round4;
+    round4.push(("points-shape-placed-as-a-point/polygon-H", format!("{a}<polygon id=\"e\" xy=\"#a|H 2\" points=\"0 0 10 0 5 8\"/>"), BBox::new(-2., 36., 8., 44.)));
+    round4.push(("points-shape-placed-as-a-point/polyline-h", format!("{a}<polyline id=\"e\" xy=\"#a|h 2\" points=\"0 0 10 10\"/>"), BBox::new(42., 35., 52., 45.)));
+    round4.push(("points-shape-placed-as-a-point/polygon-cxy", format!("{a}<polygon id=\"e\" cxy=\"#a@c\" points=\"0 0 10 0 5 8\"/>"), BBox::new(20., 36., 30., 44.)));
+    round4.push(("points-shape-placed-as-a-point/polygon-xy-loc", format!("{a}<polygon id=\"e\" xy=\"#a@br\" xy-loc=\"br\" points=\"0 0 10 0 5 8\"/>"), BBox::new(30., 52., 40., 60.)));
+    round4.push(("points-shape-placed-as-a-point/polygon-offset-points", format!("{a}<polygon id=\"e\" xy=\"#a@br\" points=\"5 5 15 5 10 13\"/>"), BBox::new(40., 60., 50., 68.)));
+    round4.push(("points-shape-placed-as-a-point/polyline-V", format!("{a}<polyline id=\"e\" xy=\"#a|V 2\" points=\"2 2 12 12\"/>"), BBox::new(20., 8., 30., 18.)));
     let st = run_space(round4.len(), |i| verify(&round4[i].1, &[("e", round4[i].2)], round4[i].0, 1));
     rep.absorb("fourth-round", st);
     // a <use> placed relative to another element: the box of its INSTANCE (the target's box, moved by the target's own
